@@ -21,7 +21,11 @@
  *      and -- on callback-backed areas -- each of those operations with one
  *      area callback answering IO_ERROR), and then the block write is decided
  *      against the flat model evaluated on the storage as that operation left
- *      it.  The result of the earlier operation is not judged.
+ *      it.  The result of the earlier operation is not judged.  When an
+ *      injected callback fault was reached and the table answers UNINITIALISED
+ *      to a zero-length block read afterwards (a fail-safe library taking the
+ *      table out of service; no statement mentions driver I/O errors) the case
+ *      ends as the trivial class latched-after-fault.
  *   T  top of the address space (regfam.h, fam_enumerate_top): the family moved
  *      up so that the last word of the layout is 0xffffffff -- the last area,
  *      a register at its end and every window reaching it end at 2^32, which
@@ -35,7 +39,9 @@
  * A table that register_init refuses ends its cases as trivial ones
  * (init-refused): whether a description is accepted is C04's sentence.  An
  * infinite or subnormal float overlay that also lies outside the register's
- * constraint may be refused as invalid or as out-of-range (regtab.h).
+ * constraint may be refused as invalid or as out-of-range; so may a NaN
+ * overlay under min/max/range, any undecodable overlay of an always-fail
+ * register and of a register with a user predicate (regtab.h).
  */
 #include "mc.h"
 #include "regfam.h"
@@ -434,7 +440,11 @@ establish_image(void)
         poke_reg(r, g_C[r][g_sel[r]]);
 }
 
-enum { HC_OK, HC_REFUSED, HC_FAULT_REACHED, HC_FAULT_NOT_REACHED };
+/* HC_LATCHED: the earlier operation reached its injected callback fault and
+ * the table answers UNINITIALISED afterwards (public probe).  No statement
+ * mentions driver I/O errors; a library that takes the table out of service
+ * after one keeps the statement true: the case is not judged. */
+enum { HC_OK, HC_REFUSED, HC_FAULT_REACHED, HC_FAULT_NOT_REACHED, HC_LATCHED };
 
 static int
 run_hist(const struct hist *h)
@@ -560,12 +570,15 @@ run_hist(const struct hist *h)
         break;
     }
     }
-    const bool hit = (tb.cb_fail_read_at >= 0 && tb.cb_reads > tb.cb_fail_read_at)
-        || (tb.cb_fail_write_at >= 0 && tb.cb_writes > tb.cb_fail_write_at);
+    const bool hit = tab_fault_reached(&tb);
     tb.cb_fail_read_at = tb.cb_fail_write_at = -1;
     mc_trans(1);
+    const bool latched = fault && hit && tab_out_of_service(&tb);
     if (mc.verbose && mc.active)
-        mc_log("earlier operation %s -> %s@%u%s", hist_str(h), acc(a.code), a.address, fault ? (hit ? " (fault reached)" : " (fault not reached)") : "");
+        mc_log("earlier operation %s -> %s@%u%s%s", hist_str(h), acc(a.code), a.address, fault ? (hit ? " (fault reached)" : " (fault not reached)") : "",
+               latched ? "; the table answers UNINITIALISED afterwards: out of service, not judged" : "");
+    if (latched)
+        return HC_LATCHED;
     if (fault)
         return hit ? HC_FAULT_REACHED : HC_FAULT_NOT_REACHED;
     return a.code == REG_ACCESS_SUCCESS ? HC_OK : HC_REFUSED;
@@ -698,6 +711,10 @@ run_window(uint32_t addr, uint32_t n)
     /* the current content is what the earlier operation (if any) left behind;
      * that operation is deterministic, so it is the same before every write */
     prepare();
+    if (g_hist != NULL && g_hclass == HC_LATCHED) {
+        mc_end(false, "latched-after-fault");
+        return;
+    }
     for (uint32_t i = 0; i < n; ++i)
         cur[i] = flat_area_of(&tb.s, addr + i) >= 0 ? flat_word(&tb, addr + i) : 0xdead;
     if (n == 0) {
